@@ -29,6 +29,21 @@ BATCH_HARNESSES = [
     batch("batch-3tx", "VerifBatch", thorough={"maxtx": 3, "exactntx": 1, "maxout": 1, "tickerset": 0, "outpool": 2, "fixedrows": 1},
           thorough_only=True),
 ]
+def txblock(id, quick, thorough):
+    return {"id": id, "func": "VerifTxBlock", "pkg": NODE, "pkgname": "node", "load": ["./node"],
+            "params": {"quick": quick, "thorough": thorough}, "must_cover": ["all-inert", "some-effective"], "max_witness_replays": 6}
+
+
+TXBLOCK_HARNESSES = [
+    txblock("txblock-1", {"maxentries": 1, "kindset": 0}, {"maxentries": 1, "kindset": 0}),
+    txblock("txblock-2", {"maxentries": 2, "kindset": 1}, {"maxentries": 2, "kindset": 0}),
+]
+TXBLOCK_ASSUMPTIONS = [
+    "ideal-signature model of fat103.Validate: a signature verifies only for the key holder's own (salt, chain id, content); ext-id count, +-12 h salt window against the block time and the RCD-type mask are modelled exactly as the library implements them (native replays use real ed25519/secp256k1 signatures)",
+    "entry content = opaque carrier of a decoded batch or unparsable content (JSON parser itself not encoded: C20 not-applicable sub-claim)",
+    "prior states (executed / pending / rejected copy of an entry) are produced by running the real ApplyTransactionBlock on an earlier block",
+    "single-transaction batches (multi-transaction semantics are decided in C03's harness)",
+]
 BATCH_ASSUMPTIONS = [
     "pre-state: arbitrary rows for the input address, one recipient, one bystander, the burn and zero addresses; every balance and per-asset total < 2^62 (INV I2; excludes SQLite REAL promotion)",
     "batch satisfies the repo's own ValidData(); one input address; from 2.0 on no PEG destination (ValidatePegTx, as the caller guarantees)",
@@ -124,6 +139,29 @@ PROPS = {
         ],
         "bounds": {"quick": "ConversionSupplySet: 1..3 requests, bank and requests full uint64", "thorough": "1..4 requests"},
         "assumptions": ["math/big as mathematical integers; txids concrete and well-formed"],
+    },
+    "C05": {
+        "asserts": ["C05.", "uncaught-panic"],
+        "harnesses": TXBLOCK_HARNESSES,
+        "bounds": {"quick": "transaction-chain block with 1 entry of 12 kinds (valid transfer/conversion, replay of an executed/pending/rejected entry, unparsable, wrong signer, no signature, expired salt, corrupted signature, content altered after signing, signed for another chain, RCD-e key, extra ext-id) and 2-entry blocks (replay/transfer/conversion); height, block time, salt offset, amounts, balances symbolic",
+                   "thorough": "2-entry blocks over all kinds"},
+        "assumptions": TXBLOCK_ASSUMPTIONS,
+    },
+    "C06": {
+        "asserts": ["C06.", "uncaught-panic"],
+        "harnesses": TXBLOCK_HARNESSES,
+        "bounds": {"quick": "as C05 (same harness; duplicates within a block, across adjacent blocks, of executed/pending/rejected entries)", "thorough": "as C05"},
+        "assumptions": TXBLOCK_ASSUMPTIONS,
+    },
+    "C08": {
+        "asserts": ["C08.", "uncaught-panic"],
+        "harnesses": TXBLOCK_HARNESSES + [
+            {"id": "snapshot-live", "func": "VerifSnapshot", "pkg": NODE, "pkgname": "node", "load": ["./node"],
+             "params": {"quick": {"both": 2, "extras": 1, "assets": 1}, "thorough": {"both": 2, "extras": 1, "assets": 2}},
+             "must_cover": ["paid"], "max_witness_replays": 2},
+        ],
+        "bounds": {"quick": "as C05 for transaction blocks; SnapshotPayouts as C14(a)", "thorough": "as C05/C14"},
+        "assumptions": TXBLOCK_ASSUMPTIONS + ["panics inside dependency parsers/graders are outside (DESIGN §9)"],
     },
     "C07": {
         "asserts": ["C07.", "C07a.", "uncaught-panic"],
